@@ -383,6 +383,15 @@ func (r constantReference) Link(scope Scope, t TypeSpec) (ConstantValue, error) 
 
 	c, err := scope.LookupConstant(src.Name)
 	if err == nil {
+		if c.linking {
+			return nil, referenceError{
+				Target:    src.Name,
+				Line:      src.Line,
+				ScopeName: scope.GetName(),
+				Reason: fmt.Errorf(
+					"constant %q is defined in terms of itself", c.Name),
+			}
+		}
 		if err := c.Link(scope); err != nil {
 			return nil, err
 		}
